@@ -109,6 +109,19 @@ func c06FrameOf(es *gen.EsStream, data [][]byte) int {
 	return -1
 }
 
+// c06TinyNext: a one- or two-byte audio frame cannot carry a tag; it is identified as the next
+// expected audio frame if that one is as short and has the same bytes.
+func c06TinyNext(es *gen.EsStream, aFrames []int, last int, a []byte) int {
+	if len(a) > 2 || last+1 >= len(aFrames) || last < 0 {
+		return -1
+	}
+	fi := aFrames[last+1]
+	if bytes.Equal(es.Frames[fi].Audio, a) {
+		return fi
+	}
+	return -1
+}
+
 type c06Judge struct {
 	c    *fw.Ctx
 	es   *gen.EsStream
@@ -266,6 +279,13 @@ func (j *c06Judge) judgeTs(kind string, body []byte, fromStart bool, allowCC boo
 			}
 			for k, a := range frames {
 				fi := c06FrameOf(es, [][]byte{a})
+				if fi < 0 {
+					fi = c06TinyNext(es, aFrames, lastA, a)
+				}
+				if fi < 0 && lastA < 0 && len(a) <= 2 && es.Spec.TinyAudio {
+					j.c.Count("leading_untagged_audio_frames_skipped", 1)
+					continue
+				}
 				if fi < 0 || fi >= len(es.Frames) || es.Frames[fi].Video {
 					j.bad(kind, "unknown-audio-frame", "audio frame (%d bytes) carries no published frame tag", len(a))
 					return
@@ -517,6 +537,14 @@ func (j *c06Judge) judgeRtsp(kind string, cons *c06Consumer) {
 				}
 				for _, a := range frames {
 					fi := c06FrameOf(es, [][]byte{a})
+					if fi < 0 {
+						fi = c06TinyNext(es, aFrames, last, a)
+					}
+					if fi < 0 && last < 0 && len(a) <= 2 && es.Spec.TinyAudio {
+						// an untagged frame before the first identifiable one (mid-stream joiner): it cannot be placed
+						j.c.Count("leading_untagged_audio_frames_skipped", 1)
+						continue
+					}
 					if fi < 0 || !bytes.Equal(a, es.Frames[fi].Audio) {
 						j.bad(kind, "audio-bytes", "audio frame (%d bytes) is not a published frame (tag frame %d)", len(a), fi)
 						return
@@ -553,7 +581,7 @@ func c06Spec(c *fw.Ctx, i int) gen.EsSpec {
 		a = "aac"
 	}
 	sp := gen.EsSpec{VCodec: v, ACodec: a, NVideo: 60 + r.Intn(80), GopLen: 6 + r.Intn(12), AudioPer: 1 + r.Intn(3), MaxNals: 1 + r.Intn(6), BigNals: r.Intn(3) == 0,
-		InBandPS: r.Intn(2) == 0, AudSei: r.Intn(2) == 0, BFrames: r.Intn(2) == 0, TsStart: []uint32{0, 1000, 0xFFFFFF - 1000, 0x7fffff00}[r.Intn(4)], TsJump: r.Intn(4) == 0, AudioGap: r.Intn(4) == 0, LonePS: r.Intn(3) == 0, PsChange: r.Intn(3) == 0, PartialPS: r.Intn(3) == 0, AscChange: r.Intn(3) == 0}
+		InBandPS: r.Intn(2) == 0, AudSei: r.Intn(2) == 0, BFrames: r.Intn(2) == 0, TsStart: []uint32{0, 1000, 0xFFFFFF - 1000, 0x7fffff00}[r.Intn(4)], TsJump: r.Intn(4) == 0, AudioGap: r.Intn(4) == 0, LonePS: r.Intn(3) == 0, PsChange: r.Intn(3) == 0, PartialPS: r.Intn(3) == 0, AscChange: r.Intn(3) == 0, TinyAudio: r.Intn(2) == 0}
 	if a == "aac" {
 		sp.AacIdx = r.Intn(13)
 		sp.AacChans = 1 + r.Intn(7)
@@ -585,7 +613,7 @@ func init() {
 			return 84
 		},
 		CaseTimeout: func(string) time.Duration { return 5 * time.Minute },
-		Rule: "one case = one whole-server run: a seeded elementary stream (AVC / HEVC classic / HEVC enhanced-RTMP / no video × AAC (13 sampling indices × 1–7 channels × object types 1–4) / Opus / G.711 / no audio; 1–6 tagged NAL units per frame sized 1 B…400 KiB around multiples of 184/1200/4096; in-band parameter sets (complete, partial, on their own, and one in-band change of the PPS), a second AAC sequence header with another configuration, AUD, SEI, B-frame composition offsets, timestamp start near 0xFFFFFF / 2^31, a forward jump, sparse audio) is published by the reference RTMP client; consumers: HTTP-TS from the start, RTSP over interleaved TCP and over UDP joining mid-stream, HLS (playlist + every segment fetched after the stream ends). " +
+		Rule: "one case = one whole-server run: a seeded elementary stream (AVC / HEVC classic / HEVC enhanced-RTMP / no video × AAC (13 sampling indices × 1–7 channels × object types 1–4) / Opus / G.711 / no audio; 1–6 tagged NAL units per frame sized 1 B…400 KiB around multiples of 184/1200/4096; in-band parameter sets (complete, partial, on their own, and one in-band change of the PPS), a second AAC sequence header with another configuration, one-byte Opus / G.711 frames, AUD, SEI, B-frame composition offsets, timestamp start near 0xFFFFFF / 2^31, a forward jump, sparse audio) is published by the reference RTMP client; consumers: HTTP-TS from the start, RTSP over interleaved TCP and over UDP joining mid-stream, HLS (playlist + every segment fetched after the stream ends). " +
 			"oracle: reference TS demuxer / ADTS / Annex-B splitters and RFC 6184/7798/3640 depacketisers recover frames which must equal the published ones per track (after dropping AUD, re-inserted parameter sets, H.265 SEI on TS), in order, exactly once, to the end; DTS/PTS−90·ts constant per track per consumer; RTP timestamp within one tick; ADTS header = ASC; SDP sprop/config = published parameter sets. cell = consumer × codec pair.",
 		Assumptions: []string{"reference demuxer / depacketisers (harness/ref)", "a UDP consumer with an RTP sequence gap is inconclusive (kernel drop cannot be told apart)", "G.711 is not carried in TS (audio PID absent is accepted)"},
 		MinCells: 8,
